@@ -1149,8 +1149,13 @@ func (c *Compiler) compileFunc(node *ast.Func) error {
 	code := c.current.newChild(functionName, node.Body().String(), functionID)
 
 	// Setting current here means subsequent calls to compile will add to this
-	// code object instead of the parent.
+	// code object instead of the parent. Switch back to the parent on every
+	// return path: after a compile error in the function the compiler may be
+	// used again (REPL) and must not keep compiling into the abandoned code.
 	c.current = code
+	defer func() {
+		c.current = code.parent
+	}()
 
 	// Make it quick to look up the index of a parameter
 	paramsIdx := map[string]int{}
